@@ -26,6 +26,7 @@ import (
 	"net/url"
 	"os"
 	"reflect"
+	"regexp"
 	goruntime "runtime"
 	"strconv"
 	"strings"
@@ -283,6 +284,18 @@ type slot struct {
 // serving through the goroutine that serves it (direct ServeHTTP calls run the handler on the caller's goroutine); this
 // keeps concurrent requests apart.  Requests sent over the wire run on a server goroutine and are strictly sequential:
 // they use the fallback slot.
+// SKU is an application-defined string format (^SKU-[0-9]{4}$).  It is registered under the name "sku" ONLY on the
+// registry of each served API (untyped.API.RegisterFormat), never on strfmt.Default: whatever the binder does with a
+// format it must do through the registry it was given.
+type SKU string
+
+var skuPattern = regexp.MustCompile(`^SKU-[0-9]{4}$`)
+
+func (s SKU) String() string                { return string(s) }
+func (s SKU) MarshalText() ([]byte, error)  { return []byte(s), nil }
+func (s *SKU) UnmarshalText(b []byte) error { *s = SKU(string(b)); return nil }
+func isSKU(text string) bool                { return skuPattern.MatchString(text) }
+
 type apiInst struct {
 	handler  http.Handler
 	cur      sync.Map // goroutine id -> *slot
@@ -358,6 +371,7 @@ func buildAPIOpt(d Decl, cached bool) (*apiInst, error) {
 		return nil, err
 	}
 	api := untyped.NewAPI(ld)
+	api.RegisterFormat("sku", new(SKU), isSKU)
 	noop := runtime.ConsumerFunc(func(io.Reader, interface{}) error { return nil })
 	api.RegisterConsumer("application/x-www-form-urlencoded", noop)
 	api.RegisterConsumer("multipart/form-data", noop)
